@@ -82,7 +82,20 @@ def sqla_bases():
     B["aliased-query"] = (al(lambda s, PA: s.query(PA)), False)
     B["aliased-over-subquery"] = (
         lambda s: (lambda PA: sa.select(PA.id))(aliased(P, sa.select(P).where(P.rating >= 5).subquery())), False)
+    # an ALIASED related entity joined by the base along one route while the filter navigates to the same
+    # entity class along the same or another route: what the base joined under an alias serves the base only
+    K = sqla_env.Country
+    B["joined-aliased-country-via-author"] = (lambda s: (lambda CA: sa.select(P.id).join(P.author).join(CA, A.country))(aliased(K)), False)
+    B["joined-aliased-country-on"] = (lambda s: (lambda CA: sa.select(P.id).join(CA, P.home_id == CA.id))(aliased(K)), False)
+    B["joined-aliased-author-rel"] = (lambda s: (lambda AA: sa.select(P.id).join(AA, P.author).where(AA.age >= 0))(aliased(A)), False)
+    B["query-joined-aliased-country-via-author"] = (lambda s: (lambda CA: s.query(P).join(P.author).join(CA, A.country))(aliased(K)), False)
     return B
+
+
+ALIASED_ROUTE_FILTERS = ["home/name ne 'zz9'", "home/code ge 0 and rating ge 0", "author/country/name ne 'zz9'",
+                         "author/name eq null", "author/name ne 'zz9' or home/name eq 'zz9'",
+                         "home/name eq null or rating lt 0", "not (author/country/code lt 0)",
+                         "home/region/name ne 'zz9'", "author/age ge 0 and home/code ge 0"]
 
 
 def sqla_ids(session, q):
@@ -390,6 +403,15 @@ def run(ctx):
                         k += 1
                         if ctx.mine(k):
                             judge(ctx, graph, inst_name, "django", bname, db[bname][0], db[bname][1], t, twice=False)
+        k = 0
+        for bname in sb:
+            if "aliased-country" in bname or "aliased-author" in bname:
+                for text in ALIASED_ROUTE_FILTERS:
+                    k += 1
+                    if ctx.mine(k):
+                        ctx.count("aliased_route_cells")
+                        judge(ctx, graph, inst_name, "sqlalchemy", bname, sb[bname][0], sb[bname][1],
+                              drive.parse_term(text)[1], twice=False)
         for bname, (fn, ordered) in sb.items():
             for i in range(per):
                 if ctx.out_of_time():
